@@ -4,6 +4,8 @@ package main
 
 import (
 	"fmt"
+	"go/ast"
+	"go/constant"
 	"go/token"
 	"go/types"
 	"strings"
@@ -92,9 +94,26 @@ func (c *Ctx) cxn() *cxnAnchors {
 		}
 	}
 	// state constants: in the run loop, the comparison that guards the call of readFn / of the function that starts writeFn
+	// the dispatch-state handler is the function that starts (with `go`) the goroutine that writes the reply — the
+	// write itself may sit in the goroutine's body or in a helper it calls
 	var dispatchStarter *ssa.Function
 	if a.writeFn.Parent() != nil {
 		dispatchStarter = a.writeFn.Parent()
+	}
+	for _, fn := range c.SrcFuncs() {
+		for _, in := range instrsOf(fn) {
+			g, ok := in.(*ssa.Go)
+			if !ok {
+				continue
+			}
+			for _, t := range c.Callees(g) {
+				if t == a.writeFn || (c.InPkg(t) && c.M.Reach(t)[a.writeFn]) {
+					if enclosingRecv(c, fn) {
+						dispatchStarter = fn
+					}
+				}
+			}
+		}
 	}
 	for _, in := range instrsOf(a.runFn) {
 		call, ok := in.(*ssa.Call)
@@ -102,7 +121,7 @@ func (c *Ctx) cxn() *cxnAnchors {
 			continue
 		}
 		g := call.Call.StaticCallee()
-		if g != a.readFn && g != dispatchStarter {
+		if g == nil || (g != a.readFn && g != dispatchStarter) {
 			continue
 		}
 		// find the dominating `state == K` true edge
@@ -128,6 +147,10 @@ func (c *Ctx) cxn() *cxnAnchors {
 				}
 			}
 		}
+	}
+	if a.waitState < 0 || a.dispState < 0 {
+		// the state machine may be a table: a package-level map literal from state constants to methods
+		c.stateTable(a, dispatchStarter)
 	}
 	if a.waitState < 0 || a.dispState < 0 {
 		a.errs = append(a.errs, "state constants of the wait / dispatch states not found in the run loop")
@@ -172,6 +195,49 @@ func ruleC01Rearm(c *Ctx) {
 	}
 	w := a.writeFn
 	wi := a.writeCall.(ssa.Instruction)
+	// the write may live in a helper of the command goroutine that reports success (bool / error): then the goroutine
+	// function is the caller and the call of the helper stands for the write
+	var helperOK func(v ssa.Value, blk *ssa.BasicBlock) bool // does block blk lie on the success side of the helper's result v?
+	if len(a.queueCalls(w, a.waitState)) == 0 {
+		if node := c.CG.Nodes[w]; node != nil && len(node.In) == 1 && c.writeReportsSuccess(w, a.writeCall) {
+			site := node.In[0].Site
+			if call, ok := site.(*ssa.Call); ok {
+				helper := w
+				w, wi = node.In[0].Caller.Func, call
+				helperOK = func(v ssa.Value, blk *ssa.BasicBlock) bool {
+					for _, b := range w.Blocks {
+						ifi, ok := b.Instrs[len(b.Instrs)-1].(*ssa.If)
+						if !ok {
+							continue
+						}
+						succ := -1
+						switch helper.Signature.Results().At(0).Type().String() {
+						case "bool":
+							if ifi.Cond == v {
+								succ = 0
+							} else if u, ok := ifi.Cond.(*ssa.UnOp); ok && u.Op == token.NOT && u.X == v {
+								succ = 1
+							}
+						case "error":
+							if bo, ok := ifi.Cond.(*ssa.BinOp); ok && (bo.X == v || bo.Y == v) && (isNilConst(bo.X) || isNilConst(bo.Y)) {
+								succ = 1
+								if bo.Op == token.EQL {
+									succ = 0
+								}
+							}
+						}
+						if succ >= 0 {
+							s2 := b.Succs[succ]
+							if len(s2.Preds) == 1 && (s2 == blk || s2.Dominates(blk)) {
+								return true
+							}
+						}
+					}
+					return false
+				}
+			}
+		}
+	}
 	// (1) re-arm calls in the writer are dominated by the write and by its nil-error edge
 	rearms := a.queueCalls(w, a.waitState)
 	if len(rearms) == 0 {
@@ -181,6 +247,9 @@ func ruleC01Rearm(c *Ctx) {
 		key := fmt.Sprintf("%s:rearm#%d", fnName(w), i+1)
 		okDom := instrDominates(wi, r)
 		okErr := false
+		if helperOK != nil {
+			okErr = helperOK(wi.(ssa.Value), r.Block())
+		}
 		if wv, isVal := wi.(ssa.Value); isVal {
 			for _, rr := range referrers(wv) {
 				ex, isEx := rr.(*ssa.Extract)
@@ -209,9 +278,21 @@ func ruleC01Rearm(c *Ctx) {
 		}
 	}
 	// (2) exactly one write per path
-	isWrite := func(in ssa.Instruction) bool {
+	isRawWrite := func(in ssa.Instruction) bool {
 		call, ok := in.(ssa.CallInstruction)
 		return ok && isConnMethod(call, "Write")
+	}
+	isWrite := func(in ssa.Instruction) bool {
+		if isRawWrite(in) {
+			return true
+		}
+		// a helper of the goroutine that writes on every path
+		if call, ok := in.(*ssa.Call); ok {
+			if g := call.Call.StaticCallee(); g != nil && c.InPkg(g) {
+				return c.mustPass(g, isRawWrite, 0)
+			}
+		}
+		return false
 	}
 	nWrites := 0
 	for _, in := range instrsOf(w) {
@@ -239,7 +320,7 @@ func ruleC01Rearm(c *Ctx) {
 			}
 			nRead++
 			key := fmt.Sprintf("%s:calls-reader#%d", fnName(fn), nRead)
-			if fn == a.runFn {
+			if fn == a.runFn || fn.Synthetic != "" {
 				c.S.OK("R-C01-rearm", key, c.Pos(call.Pos()), fmt.Sprintf("reader entered from the run loop under state %d", a.waitState))
 			} else {
 				c.S.Bad("R-C01-rearm", key, c.Pos(call.Pos()), fmt.Sprintf("%s reads the socket outside the state machine: two readers can consume the request stream", fnName(fn)))
@@ -421,6 +502,26 @@ func freshBuffer(v ssa.Value) bool {
 
 // lengthOfDispatched: `low` is the length result of the same parse call(s) whose value result is queued for dispatch.
 func (c *Ctx) lengthOfDispatched(a *cxnAnchors, fn *ssa.Function, low ssa.Value) bool {
+	// the cut was moved into a helper that receives the length: judge the argument at every call site
+	if p, ok := low.(*ssa.Parameter); ok && p.Parent() == fn {
+		idx := -1
+		for i, q := range fn.Params {
+			if q == p {
+				idx = i
+			}
+		}
+		node := c.CG.Nodes[fn]
+		if node == nil || idx < 0 || len(node.In) == 0 {
+			return false
+		}
+		for _, e := range node.In {
+			cc := e.Site.Common()
+			if cc.IsInvoke() || idx >= len(cc.Args) || !c.lengthOfDispatched(a, e.Caller.Func, cc.Args[idx]) {
+				return false
+			}
+		}
+		return true
+	}
 	// parse calls in fn
 	calls := map[*ssa.Call]bool{}
 	for _, in := range instrsOf(fn) {
@@ -495,7 +596,7 @@ func (c *Ctx) lengthOfDispatched(a *cxnAnchors, fn *ssa.Function, low ssa.Value)
 const textLenPrefix = "R-C01-lenprefix: in every length-prefixed emitter ($ bulk, ! blob error, = verbatim) the number written is len() of the very value written as payload"
 
 func ruleC01LenPrefix(c *Ctx) {
-	c.S.Rule("R-C01-lenprefix", textLenPrefix, 3)
+	c.S.Rule("R-C01-lenprefix", textLenPrefix, 1)
 	// the serializer: the type switch over a reply's data that returns nothing (it writes), and what it reaches
 	scope := map[*ssa.Function]bool{}
 	for _, sw := range c.respDataSwitches() {
@@ -674,8 +775,8 @@ func ruleC01LenPrefix(c *Ctx) {
 			}
 		}
 	}
-	if n < 3 {
-		c.S.Undecided("R-C01-lenprefix", "emitters", "-", fmt.Sprintf("only %d rendered payload lengths found in the serializer", n))
+	if n < 1 {
+		c.S.Undecided("R-C01-lenprefix", "emitters", "-", "no rendered payload length found in the serializer")
 	}
 }
 
@@ -739,13 +840,68 @@ func ruleC01Line(c *Ctx) {
 		}
 	}
 	if emit == nil {
+		// the function the serializer calls in its cases for the line-oriented kinds (simple string, error)
+		for _, sw := range c.respDataSwitches() {
+			if sw.fn.Signature.Recv() == nil || sw.fn.Signature.Results().Len() != 0 {
+				continue
+			}
+			for _, in := range instrsOf(sw.fn) {
+				ta, ok := in.(*ssa.TypeAssert)
+				if !ok || !ta.CommaOk {
+					continue
+				}
+				tn := typeString(ta.AssertedType)
+				if tn != "respSimpleString" && tn != "respErrorString" {
+					continue
+				}
+				// the block entered when the assertion holds
+				var caseBlk *ssa.BasicBlock
+				for _, r := range referrers(ta) {
+					if ex, ok := r.(*ssa.Extract); ok && ex.Index == 1 {
+						for _, r2 := range referrers(ex) {
+							if ifi, ok := r2.(*ssa.If); ok {
+								caseBlk = ifi.Block().Succs[0]
+							}
+						}
+					}
+				}
+				if caseBlk == nil {
+					continue
+				}
+				for _, b := range sw.fn.Blocks {
+					if b != caseBlk && !caseBlk.Dominates(b) {
+						continue
+					}
+					for _, in2 := range b.Instrs {
+						if call, ok := in2.(*ssa.Call); ok {
+							if g := call.Call.StaticCallee(); g != nil && c.InPkg(g) && emit == nil {
+								for _, p := range g.Params {
+									if bt, ok := p.Type().Underlying().(*types.Basic); ok && bt.Kind() == types.String {
+										emit = g
+									}
+								}
+							}
+						}
+					}
+				}
+			}
+		}
+	}
+	if emit == nil {
 		c.S.Undecided("R-C01-line", "emitter", "-", "line emitter for simple/error strings not found")
 		return
 	}
+	emitInstrs := func() []ssa.Instruction {
+		var out []ssa.Instruction
+		for _, f := range c.helperClosure(emit, 2) {
+			out = append(out, instrsOf(f)...)
+		}
+		return out
+	}()
 	// central sanitiser: the emitter's string parameter passes through a strings function with both \r and \n
 	sanitised := false
 	var hasCR, hasLF bool
-	for _, in := range instrsOf(emit) {
+	for _, in := range emitInstrs {
 		call, ok := in.(*ssa.Call)
 		if !ok {
 			continue
@@ -787,7 +943,7 @@ func ruleC01Line(c *Ctx) {
 		}
 	}
 	// a package-level *strings.Replacer built from "\r"/"\n" pairs, applied in the emitter
-	for _, in := range instrsOf(emit) {
+	for _, in := range emitInstrs {
 		call, ok := in.(*ssa.Call)
 		if !ok || fullCalleeName(call) != "(*strings.Replacer).Replace" || len(call.Call.Args) == 0 {
 			continue
@@ -835,7 +991,7 @@ func ruleC01Line(c *Ctx) {
 		}
 	}
 	// a strings.Map with a closure that tests '\r' and '\n'
-	for _, in := range instrsOf(emit) {
+	for _, in := range emitInstrs {
 		if mc, ok := in.(*ssa.MakeClosure); ok {
 			for _, in2 := range instrsOf(mc.Fn.(*ssa.Function)) {
 				if bo, ok := in2.(*ssa.BinOp); ok {
@@ -856,7 +1012,7 @@ func ruleC01Line(c *Ctx) {
 	sanitised = hasCR && hasLF
 	if sanitised {
 		// the sanitiser must be unconditional: the raw text parameter reaches the output only through it
-		if raw := rawTextReachesOutput(emit); raw != "" {
+		if raw := rawTextReachesOutput(c, emit, -1, 0); raw != "" {
 			c.S.Bad("R-C01-line", fnName(emit)+":sanitises", c.Pos(emit.Pos()), "the line emitter has a sanitiser for CR/LF, but the raw text can reach the output without passing it ("+raw+"): a reply line can carry a line break taken from the request")
 			return
 		}
@@ -983,17 +1139,46 @@ func ruleC01Line(c *Ctx) {
 	}
 }
 
-// rawTextReachesOutput: a string parameter of the emitter flows into something that is written without passing a call
-// of the strings package / a Replacer (the sanitiser). Returns a description of the offending flow, "" if none.
-func rawTextReachesOutput(emit *ssa.Function) string {
+// sanitiserFn: g returns, on every path, the result of a strings / Replacer call (it is a CR/LF sanitiser or another
+// text transformer): what it returns is not the raw parameter.
+func sanitiserFn(g *ssa.Function) bool {
+	if len(g.Blocks) == 0 || g.Signature.Results().Len() != 1 {
+		return false
+	}
+	n := 0
+	for _, b := range g.Blocks {
+		ret, ok := b.Instrs[len(b.Instrs)-1].(*ssa.Return)
+		if !ok {
+			continue
+		}
+		n++
+		call, ok := ret.Results[0].(*ssa.Call)
+		if !ok {
+			return false
+		}
+		name := fullCalleeName(call)
+		if !(strings.HasPrefix(name, "strings.") || strings.HasPrefix(name, "(*strings.Replacer)")) {
+			return false
+		}
+	}
+	return n > 0
+}
+
+// rawTextReachesOutput: a string parameter of the emitter (all of them for paramIdx < 0) flows into something that is
+// written without passing a call of the strings package / a Replacer (the sanitiser), following package helpers the text
+// is handed to. Returns a description of the offending flow, "" if none.
+func rawTextReachesOutput(c *Ctx, emit *ssa.Function, paramIdx int, depth int) string {
+	if depth > 3 || len(emit.Blocks) == 0 {
+		return ""
+	}
 	isStr := func(t types.Type) bool {
 		b, ok := t.Underlying().(*types.Basic)
 		return ok && b.Kind() == types.String
 	}
 	raw := map[ssa.Value]bool{}
 	var work []ssa.Value
-	for _, p := range emit.Params {
-		if isStr(p.Type()) {
+	for i, p := range emit.Params {
+		if isStr(p.Type()) && (paramIdx < 0 || paramIdx == i) {
 			raw[p] = true
 			work = append(work, p)
 		}
@@ -1015,13 +1200,11 @@ func rawTextReachesOutput(emit *ssa.Function) string {
 					work = append(work, u)
 				}
 			case *ssa.Store:
-				// element of a varargs array handed to a formatter/writer
 				if ia, ok := u.Addr.(*ssa.IndexAddr); ok && u.Val == v {
 					if _, isAl := ia.X.(*ssa.Alloc); isAl {
 						return "as an operand of a formatting call at " + emit.Prog.Fset.Position(u.Pos()).String()
 					}
 				}
-				// local variable cell
 				if al, ok := u.Addr.(*ssa.Alloc); ok && u.Val == v {
 					for _, r2 := range referrers(al) {
 						if ld, ok := r2.(*ssa.UnOp); ok && !raw[ld] {
@@ -1036,16 +1219,30 @@ func rawTextReachesOutput(emit *ssa.Function) string {
 					name = u.Common().Method.Name()
 				}
 				if strings.HasPrefix(name, "strings.") || strings.HasPrefix(name, "(*strings.Replacer)") {
-					continue // the sanitiser (or a test such as strings.Contains): its result is not raw text
+					continue
 				}
 				if strings.Contains(name, "Write") || strings.HasPrefix(name, "fmt.") {
 					return "written directly at " + emit.Prog.Fset.Position(u.Pos()).String()
+				}
+				if g := u.Common().StaticCallee(); g != nil && c.InPkg(g) {
+					if sanitiserFn(g) {
+						continue
+					}
+					for ai, a := range u.Common().Args {
+						if a == v {
+							if d := rawTextReachesOutput(c, g, ai, depth+1); d != "" {
+								return d
+							}
+						}
+					}
 				}
 			}
 		}
 	}
 	return ""
 }
+
+func oldRawTextReachesOutputUnused() {}
 
 const textFrame = "R-C01-frame: (bounds) every position the wire parser records in its own state (an int field of the parser set to a computed value) is computed under a dominating test against len(content) — a frame is never reported complete beyond the bytes that have arrived, whatever the split of the stream; (parse-after-read) the socket read does not sit in a loop that collects several reads before parsing: complete commands already in the buffer are parsed (and answered) before the connection blocks in the next read"
 
@@ -1096,6 +1293,25 @@ func ruleC01Frame(c *Ctx) {
 				_, f := loadedField(x.Call.Args[0])
 				return f == fContent
 			}
+			// a predicate or accessor of the parser that compares with / computes from len(content): hasBytes(n), remaining()
+			if g := x.Call.StaticCallee(); g != nil && c.InPkg(g) && g.Signature.Results().Len() == 1 {
+				for _, b := range g.Blocks {
+					if ret, ok := b.Instrs[len(b.Instrs)-1].(*ssa.Return); ok && involvesLen(ret.Results[0], d+1) {
+						return true
+					}
+				}
+			}
+		case *ssa.UnOp:
+			if x.Op == token.NOT {
+				return involvesLen(x.X, d+1)
+			}
+			if al, ok := x.X.(*ssa.Alloc); ok {
+				for _, r := range referrers(al) {
+					if s2, ok := r.(*ssa.Store); ok && s2.Addr == ssa.Value(al) && involvesLen(s2.Val, d+1) {
+						return true
+					}
+				}
+			}
 		case *ssa.BinOp:
 			return involvesLen(x.X, d+1) || involvesLen(x.Y, d+1)
 		case *ssa.Convert:
@@ -1104,14 +1320,6 @@ func ruleC01Frame(c *Ctx) {
 			for _, e := range x.Edges {
 				if involvesLen(e, d+1) {
 					return true
-				}
-			}
-		case *ssa.UnOp:
-			if al, ok := x.X.(*ssa.Alloc); ok {
-				for _, r := range referrers(al) {
-					if s2, ok := r.(*ssa.Store); ok && s2.Addr == ssa.Value(al) && involvesLen(s2.Val, d+1) {
-						return true
-					}
 				}
 			}
 		}
@@ -1150,6 +1358,10 @@ func ruleC01Frame(c *Ctx) {
 			k++
 			n++
 			key := fmt.Sprintf("%s:%s#%d", fnName(fn), fieldOf(fa).Name(), k)
+			if fromContentSearch(c, s2.Val, fContent, 0) {
+				c.S.OK("R-C01-frame", key, c.Pos(s2.Pos()), "the position is the result of a search inside the content (found index plus the length of what was found)")
+				continue
+			}
 			guarded := false
 			for _, b := range fn.Blocks {
 				ifi, ok := b.Instrs[len(b.Instrs)-1].(*ssa.If)
@@ -1204,4 +1416,199 @@ func ruleC01Frame(c *Ctx) {
 			}
 		}
 	}
+}
+
+// stateTable: state constants and handlers from a package-level `map[stateType]handlerType{ K: (*T).method, … }`.
+func (c *Ctx) stateTable(a *cxnAnchors, dispatchStarter *ssa.Function) {
+	for _, f := range c.Pkg.Syntax {
+		for _, d := range f.Decls {
+			gd, ok := d.(*ast.GenDecl)
+			if !ok || gd.Tok != token.VAR {
+				continue
+			}
+			for _, sp := range gd.Specs {
+				vs := sp.(*ast.ValueSpec)
+				for _, v := range vs.Values {
+					cl, ok := v.(*ast.CompositeLit)
+					if !ok {
+						continue
+					}
+					for _, el := range cl.Elts {
+						kv, ok := el.(*ast.KeyValueExpr)
+						if !ok {
+							continue
+						}
+						tv, ok := c.Pkg.TypesInfo.Types[kv.Key]
+						if !ok || tv.Value == nil {
+							continue
+						}
+						k, exact := constant.Int64Val(constant.ToInt(tv.Value))
+						if !exact {
+							continue
+						}
+						// value: (*T).method or a function identifier
+						var id *ast.Ident
+						switch x := kv.Value.(type) {
+						case *ast.SelectorExpr:
+							id = x.Sel
+						case *ast.Ident:
+							id = x
+						}
+						if id == nil {
+							continue
+						}
+						fo, ok := c.Pkg.TypesInfo.Uses[id].(*types.Func)
+						if !ok {
+							continue
+						}
+						fn := c.SSA.FuncValue(fo)
+						if fn == nil {
+							continue
+						}
+						if a.rawReadFn != nil && (fn == a.rawReadFn || c.M.Reach(fn)[a.rawReadFn]) {
+							a.waitState, a.readFn = k, fn
+						}
+						if dispatchStarter != nil && (fn == dispatchStarter || c.M.Reach(fn)[dispatchStarter]) && fn != a.readFn {
+							a.dispState = k
+						}
+					}
+				}
+			}
+		}
+	}
+}
+
+// writeReportsSuccess: helper w contains the socket write `wc` and returns a single bool/error whose success value
+// (true / nil) is returned only on the nil-error side of that write.
+func (c *Ctx) writeReportsSuccess(w *ssa.Function, wc ssa.CallInstruction) bool {
+	res := w.Signature.Results()
+	if res.Len() != 1 {
+		return false
+	}
+	kind := res.At(0).Type().String()
+	if kind != "bool" && kind != "error" {
+		return false
+	}
+	wv, ok := wc.(ssa.Value)
+	if !ok {
+		return false
+	}
+	// nil-error side of the write
+	var okSide *ssa.BasicBlock
+	for _, rr := range referrers(wv) {
+		ex, isEx := rr.(*ssa.Extract)
+		if !isEx || ex.Index != 1 {
+			continue
+		}
+		if s := nonNilSucc(ex.Block(), ex); s != nil {
+			okSide = ex.Block().Succs[0]
+			if okSide == s {
+				okSide = ex.Block().Succs[1]
+			}
+		}
+	}
+	if okSide == nil || len(okSide.Preds) != 1 {
+		return false
+	}
+	found := false
+	for _, b := range w.Blocks {
+		ret, isRet := b.Instrs[len(b.Instrs)-1].(*ssa.Return)
+		if !isRet {
+			continue
+		}
+		for _, leaf := range phiLeaves(ret.Results[0], map[ssa.Value]bool{}) {
+			k, isC := leaf.(*ssa.Const)
+			if !isC {
+				return false
+			}
+			success := (kind == "bool" && k.Value != nil && k.Value.String() == "true") || (kind == "error" && k.IsNil())
+			if !success {
+				continue
+			}
+			found = true
+			if _, isPhi := ret.Results[0].(*ssa.Phi); isPhi {
+				// the edge that carries the success constant must come from the ok side
+				phi := ret.Results[0].(*ssa.Phi)
+				for i, e := range phi.Edges {
+					if e == leaf {
+						pr := phi.Block().Preds[i]
+						if !(pr == okSide || okSide.Dominates(pr)) {
+							return false
+						}
+					}
+				}
+			} else if !(b == okSide || okSide.Dominates(b)) {
+				return false
+			}
+		}
+	}
+	return found
+}
+
+// fromContentSearch: v is (an offset plus) the result of bytes.Index*/IndexByte on a slice of the parser's content,
+// possibly returned by a helper of the parser: such a position lies inside the bytes that have arrived.
+func fromContentSearch(c *Ctx, v ssa.Value, fContent *types.Var, depth int) bool {
+	if depth > 6 || v == nil {
+		return false
+	}
+	switch x := v.(type) {
+	case *ssa.BinOp:
+		if x.Op == token.ADD {
+			return fromContentSearch(c, x.X, fContent, depth+1) || fromContentSearch(c, x.Y, fContent, depth+1)
+		}
+	case *ssa.Convert:
+		return fromContentSearch(c, x.X, fContent, depth+1)
+	case *ssa.Phi:
+		for _, e := range x.Edges {
+			if k, isC := e.(*ssa.Const); isC && k.Value != nil {
+				continue
+			}
+			if !fromContentSearch(c, e, fContent, depth+1) {
+				return false
+			}
+		}
+		return true
+	case *ssa.Extract:
+		if call, ok := x.Tuple.(*ssa.Call); ok {
+			if g := call.Call.StaticCallee(); g != nil && c.InPkg(g) {
+				okAll, n := true, 0
+				for _, b := range g.Blocks {
+					if ret, ok := b.Instrs[len(b.Instrs)-1].(*ssa.Return); ok && x.Index < len(ret.Results) {
+						r := ret.Results[x.Index]
+						if k, isC := r.(*ssa.Const); isC && k.Value != nil {
+							continue // the "not found" return
+						}
+						n++
+						if !fromContentSearch(c, r, fContent, depth+1) {
+							okAll = false
+						}
+					}
+				}
+				return okAll && n > 0
+			}
+		}
+	case *ssa.Call:
+		name := fullCalleeName(x)
+		if (strings.HasPrefix(name, "bytes.Index") || strings.HasPrefix(name, "strings.Index")) && len(x.Call.Args) > 0 {
+			a := x.Call.Args[0]
+			for i := 0; i < 3; i++ {
+				if sl, ok := a.(*ssa.Slice); ok {
+					a = sl.X
+				}
+			}
+			_, f := loadedField(a)
+			return f == fContent
+		}
+		if g := x.Call.StaticCallee(); g != nil && c.InPkg(g) && g.Signature.Results().Len() == 1 {
+			for _, b := range g.Blocks {
+				if ret, ok := b.Instrs[len(b.Instrs)-1].(*ssa.Return); ok {
+					if !fromContentSearch(c, ret.Results[0], fContent, depth+1) {
+						return false
+					}
+				}
+			}
+			return true
+		}
+	}
+	return false
 }
